@@ -122,6 +122,7 @@ var solvers = []solverSpec{
 	{"z3-new", []string{"z3-new", "-smt2"}},
 	{"cvc5", []string{"cvc5", "--lang=smt2", "--produce-models"}},
 	{"z3", []string{"z3", "-smt2"}},
+	{"z3-new-nogb", []string{"z3-new", "-smt2", "smt.arith.nl.grobner=false"}},
 }
 
 var solverSem = make(chan struct{}, 16)
@@ -130,7 +131,7 @@ func runOneSolver(ctx context.Context, sp solverSpec, file string, timeoutS int)
 	start := time.Now()
 	args := append([]string{}, sp.args[1:]...)
 	switch sp.name {
-	case "z3", "z3-new":
+	case "z3", "z3-new", "z3-new-nogb":
 		args = append(args, fmt.Sprintf("-T:%d", timeoutS))
 	case "cvc5":
 		args = append(args, fmt.Sprintf("--tlimit=%d", timeoutS*1000))
